@@ -19,6 +19,7 @@ DOMAINS = {
     "errstr": {"letter": "E", "header_tokens": 5}, "buffmt": {"letter": "F", "header_tokens": 9}, "expr": {"letter": "X", "header_tokens": 4},
     "p06": {"letter": "P", "header_tokens": 4}, "p08": {"letter": "P8", "header_tokens": 4}, "p09": {"letter": "P9", "header_tokens": 4}, "p09u": {"letter": "PU", "header_tokens": 4},
     "p21": {"letter": "P", "header_tokens": 4}, "pline": {"letter": "P", "header_tokens": 4},
+    "p06big": {"letter": "P", "header_tokens": 4}, "p09ubig": {"letter": "PU", "header_tokens": 4},
 }
 
 PROPS = {
@@ -286,3 +287,8 @@ PROPS["C11"]["domains"] = PROPS["C11"]["domains"] + [{"name": "regs", "cfgs": ["
 PROPS["C12"]["domains"] = PROPS["C12"]["domains"] + [{"name": "regs", "cfgs": ["F"]}]
 for _k in ("C02", "C03", "C04", "C11", "C12"):
     PROPS[_k]["assumptions"] = PROPS[_k]["assumptions"] + ["compiler-dialect configurations E (strict ISO C99: own strncasecmp / strnlen / strndup fall-backs) and F (GNU C89: scpi_bool_t = unsigned char) are exercised by the correspondence domains named <domain>/E, <domain>/F; they must behave like configuration A"]
+
+# units answering 2^15 result items and more (an item counter of 16 bits wraps): small domains of their own, because one such
+# case costs the model minutes (its output list grows by appending); quick tier: the 2^15 case only
+PROPS["C06"]["domains"] = PROPS["C06"]["domains"] + [{"name": "p06big", "cfgs": ["A"], "keep": "P,H,W,F"}]
+PROPS["C09"]["domains"] = PROPS["C09"]["domains"] + [{"name": "p09ubig", "cfgs": ["A"]}]
